@@ -172,7 +172,7 @@ def specs_for(ctx, fam):
     def accept(ins):
         return any(x["kind"] == "dict" for x in ins)
 
-    return c + rand_specs(ctx, 2 if quick else 24, prefix="rb", extra_opts=["--generateByteVersions=rs."], gen_cls=DictGen,
+    return c + rand_specs(ctx, 2 if quick else 6, prefix="rb", extra_opts=["--generateByteVersions=rs."], gen_cls=DictGen,
                           verifdump=fam.bins.get("verifdump"), accept=accept)
 
 
@@ -188,7 +188,7 @@ def norm_flags(v):
 def run(ctx):
     fam = Family(ctx, PROPS, "corr:C10:bytes")
     fam.prepare(specs_for(ctx, fam), driver_files=DRV)
-    nvals = 10 if ctx.quick() else 120
+    nvals = 10 if ctx.quick() else 30
     bytes_items = {}
     skipped = {}
 
